@@ -194,6 +194,12 @@ func fill(tmpl string, g *spec.Grammar, id int, v Variant) string {
 	s = strings.ReplaceAll(s, "@SETVAL@", setval.String())
 	s = strings.ReplaceAll(s, "@STARTVAL@", startval)
 	s = strings.ReplaceAll(s, "@BADCODE@", fmt.Sprint(BadCode(g)))
+	eofCode := "-1"
+	if a := g.EOFAlias(); a >= 0 {
+		// the lexer reports end of input through the generated constant of the alias token
+		eofCode = g.Tokens[a].Name
+	}
+	s = strings.ReplaceAll(s, "@EOFCODE@", eofCode)
 	return s
 }
 
